@@ -21,6 +21,7 @@ package provider
 //@ loop 0 step [chosen-entry-is-delivered] imp(confutil.IsChosenCase(result_of(p.Decoder.Scan, 0).Tag(), p.Config.ChosenCases), sent(p.Sink) == iter(sent(p.Sink)) + 1)
 //@ loop 0 step [other-entries-are-skipped] imp(!confutil.IsChosenCase(result_of(p.Decoder.Scan, 0).Tag(), p.Config.ChosenCases), sent(p.Sink) == iter(sent(p.Sink)))
 //@ at send p.Sink assert [the-scanned-entry-itself] value == result_of(p.Decoder.Scan, 0)
+//@ ensures [a-cancelled-run-ends-with-the-plain-cancellation] imp(calls(ctx.Err) > 0 && result_of(ctx.Err, 0) == context.Canceled, result == context.Canceled)
 //@ ensures [bounds-reached-is-a-clean-end] imp(calls(p.Decoder.Scan) > 0 && (result_of(p.Decoder.Scan, 1) == decoders.ErrAmmoLimit || result_of(p.Decoder.Scan, 1) == decoders.ErrPassLimit) && !done(ctx), result == nil)
 //@ ensures [decoder-failure-is-reported] imp(result == nil, calls(p.Decoder.Scan) > 0 && (errors.Is(result_of(p.Decoder.Scan, 1), decoders.ErrAmmoLimit) || errors.Is(result_of(p.Decoder.Scan, 1), decoders.ErrPassLimit)))
 //@ modifies chanSent[p.Sink], ev(scan_ok), scannedBy[p.Decoder]
@@ -51,6 +52,7 @@ package provider
 //@ ensures [no-ammo] imp(n == 0, result == decoders.ErrNoAmmo && sent(p.Sink) == sent0)
 //@ ensures [pass-bound-means-exactly-passes-complete-passes] imp(result == decoders.ErrPassLimit, p.Passes != 0 && (sent(p.Sink) - sent0) / n == p.Passes && (sent(p.Sink) - sent0) % n == 0)
 //@ ensures [limit-bound-means-exactly-limit-entries] imp(result == decoders.ErrAmmoLimit, p.Limit != 0 && sent(p.Sink) - sent0 == p.Limit && imp(p.Passes != 0, p.Limit / n < p.Passes))
+//@ ensures [a-cancelled-run-ends-with-the-plain-cancellation] imp(calls(ctx.Err) > 0 && result_of(ctx.Err, 0) == context.Canceled, result == context.Canceled)
 //@ ensures [stops-only-at-a-bound-or-on-cancel] result == decoders.ErrPassLimit || result == decoders.ErrAmmoLimit || result == decoders.ErrNoAmmo || done(ctx)
 //@ modifies chanSent[p.Sink]
 
